@@ -21,6 +21,7 @@ const REFS: &[&str] = &[
     "../../../g", "../../../../g", "/./g", "/../g", "/g/.", "/g/..", "/g/../", "g.", ".g", "g..", "..g", "./../g", "./g/.", "g/./h", "g/../h", "g;x=1/../y", "t:g",
     "t:g/.", "t:/g/..", "t:/a/./b/../c/.", "t:a/../b", "t://x/./y/..", "http:g", "s:g", "..//x", "../..//", "..//", ".//x", "//", "///", "/.//x", "a:b", "./a:b",
     "a/b:c", "..//..", "x/../../..", "/..//x", "/a/..//", "g/..//h", "\u{e9}/../\u{e9}", "?", "#", "/", "//h2", "//h2?q", "a//b/../..", "%2e/..", "%2E%2e/x",
+    "/?y", "/#s", "/?", "/#", "?#", "#?", ".?y", "..#f", "./?y#s", "S:g", "HTTP:g", "g?y/../z", "g#s/../z", "?y/../z", "#s/../z", "//?y", "//#s", "g/?", "../?", ".//", "...", ".../..", "..a/..",
 ];
 
 fn run(ctx: &mut Ctx, base: &str, reference: &str) {
